@@ -126,7 +126,10 @@ def check(case):
                 # the objective is undefined at the start point (e.g. 0 / (x'0x)): a model error, not a statement about Hessians
                 classes.append("solve-setup:objective-undefined-at-x0:" + exc_label(ex))
             except Exception as ex:
-                return Result.violation(f"solve-setup-raises:{exc_label(ex)}", f"{show(recipe)}: {ex!r}", classes)
+                from harness.common import defined_at_origin
+                if defined_at_origin(env, [recipe], pv):
+                    return Result.violation(f"solve-setup-raises:{exc_label(ex)}", f"{show(recipe)}: {ex!r}", classes)
+                classes.append("solve-setup:objective-undefined-at-x0:" + exc_label(ex))  # e.g. (-1) ** 0.5 inside the model
         judged, offdiag = 0, False
         stages = [("initial", pv)]
         if env["params"] and case.get("newp"):
